@@ -90,23 +90,27 @@ def cfg_name(cfg: Tuple[int, int, int, Optional[str]]) -> str:
 
 
 def minimums(tier: str) -> Dict[str, int]:
+    # about half of what an intact tree yields with any seed (counts scale with the number of documents)
+    q = {"evaluations": 9000, "distinct": 8000, "docs": 1700, "seen:config": 21, "seen:string_len": 42,
+         "strings_compared": 80000, "streams_compared": 14000, "objstm_members_compared": 7000,
+         "streamdict_strings_compared": 400, "open_user_ok": 1700, "open_owner_ok": 1700, "wrong_rejected": 7000,
+         "wrong_rejected:unpreparable": 30, "text_compared": 3400, "trailer_id_checked": 3400,
+         "xrefstream_dict_checked": 1000, "encrypt_dict_checked": 1000, "perms_checked": 10000, "seen:perm_bits": 8,
+         "metadata_plain_checked": 400, "large_objnum_objects": 2000, "nonzero_gen_objects": 2000,
+         "seen:large_objnums": 13, "seen:generations": 7, "ref_selftest_agree": 9, "seen:xref_kind": 3,
+         "seen:id_mode": 3, "seen:user_pw_category": 11, "tagged:%s" % TAG_STREAMDICT: 60,
+         "tagged:%s" % TAG_IDDEFAULT: 20, "tagged:%s" % TAG_SASLMAP: 10, "tagged:%s" % TAG_UNPREP: 6}
     if tier == "quick":
-        return {"evaluations": 4000, "distinct": 3500, "docs": 500, "seen:config": 23, "seen:string_len": 41,
-                "strings_compared": 40000, "streams_compared": 4000, "objstm_members_compared": 500,
-                "open_user_ok": 450, "open_owner_ok": 450, "wrong_rejected": 2000, "text_compared": 600,
-                "trailer_id_checked": 500, "perms_checked": 900, "seen:perm_bits": 8, "metadata_plain_checked": 20,
-                "large_objnum_objects": 100, "nonzero_gen_objects": 100, "ref_selftest_agree": 10,
-                "seen:xref_kind": 3, "seen:id_mode": 3}
-    return {"evaluations": 40000, "distinct": 35000, "docs": 5000, "seen:config": 23, "seen:string_len": 41,
-            "strings_compared": 400000, "streams_compared": 40000, "objstm_members_compared": 5000,
-            "open_user_ok": 4500, "open_owner_ok": 4500, "wrong_rejected": 20000, "text_compared": 6000,
-            "trailer_id_checked": 5000, "perms_checked": 9000, "seen:perm_bits": 8, "metadata_plain_checked": 200,
-            "large_objnum_objects": 1000, "nonzero_gen_objects": 1000, "ref_selftest_agree": 10,
-            "seen:xref_kind": 3, "seen:id_mode": 3}
+        return q
+    f = (256 * 100) // (48 * 36)
+    keep = {k: v for k, v in q.items() if k.startswith("seen:") or k == "ref_selftest_agree"}
+    out = {k: v * f for k, v in q.items()}
+    out.update(keep)
+    return out
 
 
 def shards(tier: str, seed: int) -> List[Dict[str, Any]]:
-    nsh, per = (32, 20) if tier == "quick" else (128, 50)
+    nsh, per = (48, 36) if tier == "quick" else (256, 100)
     out: List[Dict[str, Any]] = [{"kind": "docs", "sub": k, "n": per} for k in range(nsh)]
     out.append({"kind": "selftest", "sub": 0})
     return out
@@ -395,9 +399,9 @@ def gen_case(seed: int, sub: int, j: int, tier: str = "quick") -> Dict[str, Any]
         tag = TAG_STREAMDICT
     elif cfm == "Identity" and r < 0.35:
         tag = TAG_IDDEFAULT
-    elif R == 6 and cfm == "AESV3" and 0.10 <= r < 0.22:
+    elif R == 6 and cfm == "AESV3" and 0.10 <= r < 0.28:
         tag = TAG_SASLMAP
-    elif R == 6 and cfm == "AESV3" and 0.22 <= r < 0.30:
+    elif R == 6 and cfm == "AESV3" and 0.28 <= r < 0.40:
         tag = TAG_UNPREP
 
     # ---- passwords
